@@ -10,7 +10,7 @@
    undefined) of exactly the IEEE-754 roundToIntegral result / nextUp / nextDown. *)
 From Coq Require Import ZArith Bool.
 From Flocq Require Import Core BinarySingleNaN.
-From Tetl Require Import Lib.Base C16.Model C16.Spec C16.ProofsFloor C16.ProofsRound C16.ProofsNext.
+From Tetl Require Import Lib.Base C16.Model C16.Spec C16.ProofsFloor C16.ProofsRound C16.ProofsNext C16.ProofsLerp C16.ProofsMidpoint.
 Local Open Scope Z_scope.
 
 (* gcem floor / ceil / trunc (after e1bfd70, 9f69bd4, 8aa460f): constant evaluation of
@@ -47,13 +47,15 @@ Proof.
 Qed.
 Print Assumptions C16_gcem_floor_ceil_trunc_exact_formats.
 
-(* gcem round (halfway cases away from zero): binary32 and binary64 (the generic lemma
-   ProofsRound.g_round_exact needs 2 <= prec <= 63: for the x87 format find_whole converts
-   floor(x) + 1 = 2^63 to long long, see NOTES.md) *)
+(* gcem round (halfway cases away from zero; after 1802224 floor(|x|) + 1 is added in the
+   floating-point type): every format with 2 <= prec <= 64, spelled out for the three formats *)
 Theorem C16_gcem_round_exact :
+  (forall prec emax (Hp : Prec_gt_0 prec) (Hpe : Prec_lt_emax prec emax), 2 <= prec -> prec <= 64 ->
+     forall x : binary_float prec emax, g_round prec emax Hp Hpe x = Ok (spec_round prec emax Hpe x)) /\
   (forall x : b32, g_round 24 128 p32 pe32 x = Ok (spec_round 24 128 pe32 x)) /\
-  (forall x : b64, g_round 53 1024 p64 pe64 x = Ok (spec_round 53 1024 pe64 x)).
-Proof. exact (conj g_round_exact_b32 g_round_exact_b64). Qed.
+  (forall x : b64, g_round 53 1024 p64 pe64 x = Ok (spec_round 53 1024 pe64 x)) /\
+  (forall x : b80, g_round 64 16384 p80 pe80 x = Ok (spec_round 64 16384 pe80 x)).
+Proof. exact (conj g_round_exact (conj g_round_exact_b32 (conj g_round_exact_b64 g_round_exact_b80))). Qed.
 Print Assumptions C16_gcem_round_exact.
 
 (* rint_fallback / lrint_fallback (after bd3faba): round to nearest, ties to even; lrint for
@@ -70,6 +72,17 @@ Theorem C16_lrint_fallback_exact :
   (forall (x : b80) z, spec_lrint 64 16384 pe80 64 x = Some z -> e_lrint_fb 64 16384 p80 pe80 x = Ok z).
 Proof. exact (conj e_lrint_fb_exact_b32 (conj e_lrint_fb_exact_b64 e_lrint_fb_exact_b80)). Qed.
 Print Assumptions C16_lrint_fallback_exact.
+(* ... and the only undefined behaviour of lrint_fallback is the case C leaves unspecified (NaN,
+   infinity, rounded value outside the 64-bit range) *)
+Theorem C16_lrint_fallback_ub_exactly_unspecified :
+  (forall x : b32, e_lrint_fb 24 128 p32 pe32 x =
+     match spec_lrint 24 128 pe32 64 x with Some z => Ok z | None => UB SignedOverflow end) /\
+  (forall x : b64, e_lrint_fb 53 1024 p64 pe64 x =
+     match spec_lrint 53 1024 pe64 64 x with Some z => Ok z | None => UB SignedOverflow end) /\
+  (forall x : b80, e_lrint_fb 64 16384 p80 pe80 x =
+     match spec_lrint 64 16384 pe80 64 x with Some z => Ok z | None => UB SignedOverflow end).
+Proof. exact e_lrint_fb_char_formats. Qed.
+Print Assumptions C16_lrint_fallback_ub_exactly_unspecified.
 
 (* nextafter (detail::nextafter after d05c65b): the +-1 step on the uint32 / uint64 bit pattern
    is nextUp / nextDown towards the target for every pair of values: zeros of both signs,
@@ -83,3 +96,26 @@ Print Assumptions C16_nextafter_exact.
 (* non-vacuity of the only hypothesis above: lrint(2.5f) = 2 *)
 Example C16_rounding_nonvacuous : spec_lrint 24 128 pe32 64 (dec32 1075838976) = Some 2.
 Proof. vm_compute. reflexivity. Qed.
+
+(* lerp ([c.math.lerp]): for finite a, b: lerp(a,b,0) == a, lerp(a,b,1) == b; for finite t and
+   a == b: lerp(a,a,t) == a (Spec.spec_lerp_exact lists exactly these cases; == is the C++
+   comparison, the sign of a zero result is open).  Every format with 2 <= prec, prec + 2 <= emax. *)
+Theorem C16_lerp_exact_cases :
+  forall prec emax (Hp : Prec_gt_0 prec) (Hpe : Prec_lt_emax prec emax), 2 <= prec -> prec + 2 <= emax ->
+  forall a b t v : binary_float prec emax,
+  spec_lerp_exact prec emax Hp Hpe a b t = Some v -> Beqb (e_lerp prec emax Hp Hpe a b t) v = true.
+Proof. exact e_lerp_exact_cases. Qed.
+Print Assumptions C16_lerp_exact_cases.
+(* non-vacuity: lerp(3, 5, 0) has the expectation 3 *)
+Example C16_lerp_nonvacuous :
+  option_map enc32 (spec_lerp_exact 24 128 p32 pe32 (dec32 1077936128) (dec32 1084227584) (dec32 0)) = Some 1077936128.
+Proof. vm_compute. reflexivity. Qed.
+
+(* midpoint(Float, Float) ([numeric.ops.midpoint]: "no overflow occurs"): the result is finite
+   for every pair of finite operands, every format with 2 <= prec *)
+Theorem C16_midpoint_no_overflow :
+  forall prec emax (Hp : Prec_gt_0 prec) (Hpe : Prec_lt_emax prec emax), 2 <= prec ->
+  forall a b : binary_float prec emax, is_finite a = true -> is_finite b = true ->
+  is_finite (e_midpoint prec emax Hp Hpe a b) = true.
+Proof. exact e_midpoint_finite. Qed.
+Print Assumptions C16_midpoint_no_overflow.
